@@ -59,6 +59,8 @@ class _PokTranslator(_util.OverrideableDataDesc):
             del self._sigtools__forger
         except AttributeError:
             pass
+        if 'get' not in kwargs:
+            kwargs['get'] = self._rebind
         super(_PokTranslator, self).__init__(**kwargs)
         self.func = func
         self.posoarg_names = set(posoargs)
@@ -66,6 +68,16 @@ class _PokTranslator(_util.OverrideableDataDesc):
         if isinstance(func, _PokTranslator):
             self._merge_other(func)
         self._prepare()
+
+    def _rebind(self, func, **kwargs):
+        # binding consumes the first parameter: it may be one of ours
+        present = set(
+            _specifiers.forged_signature(func, auto=False).parameters)
+        return type(self)(
+            func,
+            posoargs=self.posoarg_names & present,
+            kwoargs=self.kwoarg_names & present,
+            **kwargs)
 
     def _merge_other(self, other):
         self.func = other.func
